@@ -148,9 +148,13 @@ def check(case, ctx):
         if case["kind"] == "grid":
             mode = case["mode"]
             join = (True, True) if mode == ["-j"] else (False, False)
-            argv = ["--no-status"] + sel_args("from", case["sa"], case["ta"]) + sel_args("to", case["sb"], case["tb"]) \
-                + mode + cli_opts(case) + [pa, pb]
-            res = monitors.run_main(argv)
+            # every other case takes the default user path: status output on, stdout/stderr with real file descriptors
+            status_on = core.case_hash([case["sa"], case["sb"], case["ea"], case["eb"], repr(case["a"])]) % 2 == 0
+            argv = ([] if status_on else ["--no-status"]) + sel_args("from", case["sa"], case["ta"]) \
+                + sel_args("to", case["sb"], case["tb"]) + mode + cli_opts(case) + [pa, pb]
+            res = monitors.run_main(argv, real_files=status_on)
+            if ctx is not None and status_on:
+                ctx.count("cli_with_status_output_and_real_fds")
             try:
                 lib = library(case, pa, pb, mode if mode != ["-j"] else [], join=join)
                 lib_exc = None
